@@ -484,6 +484,10 @@ fn main() {
     let code = match argv[0].as_str() {
         "run" => cmd_run(&a),
         "replay" => cmd_replay(&a),
+        "version" => {
+            println!("vh {} monalloc={}", env!("CARGO_PKG_VERSION"), alloc::ENABLED);
+            0
+        }
         other => {
             eprintln!("unknown command {}", other);
             2
